@@ -4,6 +4,7 @@ import (
 	_ "embed"
 	"encoding/json"
 	"fmt"
+	"go/token"
 	"go/types"
 	"sort"
 	"strings"
@@ -43,6 +44,7 @@ func runC04(p *load.Program, r *oblig.Report) {
 	c04Framing(p, r)
 	c04Primitives(p, r)
 	c04EmptyArray(p, r)
+	c04VersionedRequests(p, r)
 	// the v2 record batch inside a Produce body: header layout and back-patched fields (C05.R1)
 	shareRules(r, "C04", "C04.R10 the record batch of a produce request is canonical", func(sub *oblig.Report) { c05WriterV2(p, sub) })
 	// a response is consumed as exactly one frame also when it carries an error code (C11.R1)
@@ -465,4 +467,86 @@ func c04EmptyArray(p *load.Program, r *oblig.Report) {
 	})
 	r.Check(field != "" && n > 0 && len(nilOrigins) == 0, rule, "protocol.makeArray never produces the value (array).isNil reports as null", p.Pos(mk.Pos()),
 		"array."+field+" is non-nil for every length, zero included", fmt.Sprintf("field %q, %d stores; %s", field, n, strings.Join(nilOrigins, "; ")))
+}
+
+// c04VersionedRequests: some hand-written request types choose their wire layout from an unexported version field
+// (`v apiVersion`). The value handed to writeRequest must be the one whose field was set to the version announced in
+// the header — a copy built field by field silently falls back to the v0 layout.
+func c04VersionedRequests(p *load.Program, r *oblig.Report) {
+	const rule = "C04.R12 versioned legacy requests are encoded at the version announced in their header"
+	root := p.SSAPkg("")
+	n := 0
+	for _, fn := range p.ModuleFunctions() {
+		top := fn
+		for top.Parent() != nil {
+			top = top.Parent()
+		}
+		if top.Pkg != root {
+			continue
+		}
+		an.EachInstr(fn, func(ins ssa.Instruction) {
+			c, ok := ins.(*ssa.Call)
+			if !ok || c.Parent() != fn || !calleeNamed(&c.Call, "Conn", "writeRequest") {
+				return
+			}
+			mi, isMI := c.Call.Args[len(c.Call.Args)-1].(*ssa.MakeInterface)
+			if !isMI {
+				return
+			}
+			st, isStruct := deref(mi.X.Type()).Underlying().(*types.Struct)
+			if !isStruct {
+				return
+			}
+			hasV := false
+			for i := 0; i < st.NumFields(); i++ {
+				if st.Field(i).Name() == "v" {
+					hasV = true
+				}
+			}
+			if !hasV {
+				return
+			}
+			n++
+			// the variable the message is loaded from, in this function or captured from the enclosing one
+			var cell ssa.Value
+			if ld, isLd := mi.X.(*ssa.UnOp); isLd && ld.Op == token.MUL {
+				cell = ld.X
+			}
+			owner := fn
+			if fv, isFV := cell.(*ssa.FreeVar); isFV && fn.Parent() != nil {
+				for _, site := range *fn.Referrers() {
+					if mc, isMC := site.(*ssa.MakeClosure); isMC {
+						for i, b := range mc.Bindings {
+							if fn.FreeVars[i] == fv {
+								cell, owner = b, fn.Parent()
+							}
+						}
+					}
+				}
+			}
+			versioned := false
+			if cell != nil {
+				an.EachInstr(owner, func(i2 ssa.Instruction) {
+					if s2, isSt := i2.(*ssa.Store); isSt {
+						if fa, isFA := s2.Addr.(*ssa.FieldAddr); isFA && fa.X == cell && an.FieldName(fa.X.Type(), fa.Field) == "v" {
+							versioned = true
+						}
+					}
+				})
+				// a parameter handed in by a caller that set the field
+				if _, isAlloc := cell.(*ssa.Alloc); isAlloc && !versioned {
+					for _, ref := range *cell.Referrers() {
+						if s2, isSt := ref.(*ssa.Store); isSt && s2.Addr == cell {
+							if _, fromParam := s2.Val.(*ssa.Parameter); fromParam {
+								versioned = true
+							}
+						}
+					}
+				}
+			}
+			r.Check(versioned, rule, an.ShortFunc(top)+" → the "+typeShort(deref(mi.X.Type()))+" it writes carries the negotiated version", p.Pos(c.Pos()),
+				"request.v = version on the very value passed to writeRequest", "the value written is "+clean(an.Shape(mi.X))+", whose version field is never set")
+		})
+	}
+	r.RequireCount(rule, n, 1)
 }
